@@ -1,5 +1,5 @@
 # Prose for MANIFEST.json (kept next to the registry so both change together).
-HOOK_COMMITS = []
+HOOK_COMMITS = ['cc90e8e', '79f97e5']
 NOTES = ("All checks are property-based tests / fuzzers: rapidcheck harnesses (props/*.cpp) and libFuzzer targets (fuzz/*.cpp) "
          "with explicit oracles, run by ./verif, which rebuilds libpixman from /repo's working tree (variants plain, asan, tsan) "
          "on every invocation. Genuine defects found are listed in known_findings.json (fixed by 'fix:' commits in /repo, or "
@@ -63,3 +63,9 @@ META["C12"] = dict(
     text=("Generated trapezoids/triangles on a1/a4/a8 images compared pixel by pixel with an exact sample-count model and with the "
           "metamorphic laws named in the statement; boundary-biased coordinates (pixel edges, sample positions +-2 units)."),
     note="Trusted: the rational model in props/traps.cpp. Findings: S16 fixed; S15 and S17 known (see known_findings.json).")
+META["C02"] = dict(
+    technique="differential property-based testing (rapidcheck): one generated request, N worker processes with different PIXMAN_DISABLE, bit-exact comparison with the general-only chain",
+    design_ref="§4 C02",
+    text=("Generated scenes and fill/blt requests are rendered by one worker process per implementation subset (8 quick, all 32 in "
+          "one job and thorough) and compared bit for bit; the trace hook measures how many cases really reached different code."),
+    note="Trusted: the harness's digest/masking rule; PIXMAN_VERIF trace hook (add-only). Found and fixed: S9.")
